@@ -212,6 +212,7 @@ static void mc_replay_prefix(const mc_op_t *h, int n)
 {
     int i, save = mc_checking;
     mc_checking = 0;
+    mc_branch_dead = 0; mc_viol_now = 0;          /* flags of an earlier transition must not leak into the world's control flow */
     w_init();
     for (i = 0; i < n; i++) { mc_terminal = 0; w_apply(h[i]); }
     mc_checking = save;
